@@ -39,6 +39,9 @@ void run_sorter(const SorterSpec &s, RunResult &res, SorterOutcome &out)
 	TableModel model = new_model();
 	size_t buffered = 0, nbuf = 0;
 	size_t limit = s.max_mem ? s.max_mem : 1073741824;
+	uint64_t seen_spills = 0, before_spills = 0; size_t since_spill = 0, chunk_no = 0;
+	std::map<Bytes, size_t> last_chunk;
+	if (s.check_spill) { sim_ledger lg; sim_ledger_get(&lg); seen_spills = before_spills = (uint64_t)lg.mkstemps; }
 	size_t i = 0;
 	for (auto &kv : s.adds) {
 		mtbl_res r = mtbl_sorter_add(sorter, (const uint8_t *)kv.first.data(), kv.first.size(), (const uint8_t *)kv.second.data(), kv.second.size());
@@ -51,6 +54,18 @@ void run_sorter(const SorterSpec &s, RunResult &res, SorterOutcome &out)
 		if (f == model.end()) model[kv.first] = kv.second; else f->second = union_values(f->second, kv.second);
 		buffered += kv.first.size() + kv.second.size(); nbuf++;
 		if (buffered >= limit) { out.limit_crossings++; buffered = 0; nbuf = 0; }
+		if (s.check_spill) {
+			sim_ledger lg; sim_ledger_get(&lg);
+			if ((uint64_t)lg.mkstemps > seen_spills) { seen_spills = (uint64_t)lg.mkstemps; since_spill = 0; chunk_no++; res.probes["spill-at-limit"]++; }
+			else since_spill += kv.first.size() + kv.second.size();
+			if (since_spill >= limit)
+				res.fail("MODEL", "SORTER-no-spill-at-limit", "after add #" + std::to_string(i) + " " + std::to_string(since_spill) + " bytes of keys and values are buffered, memory limit is " + std::to_string(limit));
+			auto lc = last_chunk.find(kv.first);
+			size_t this_chunk = (uint64_t)lg.mkstemps > before_spills ? chunk_no - 1 : chunk_no;
+			if (lc != last_chunk.end() && lc->second != this_chunk) out.dup_across_chunks = true;
+			last_chunk[kv.first] = this_chunk;
+			before_spills = (uint64_t)lg.mkstemps;
+		}
 		i++;
 		yield();
 	}
@@ -111,7 +126,7 @@ void run_sorter(const SorterSpec &s, RunResult &res, SorterOutcome &out)
 				mtbl_reader_destroy(&rd);
 			}
 		}
-		if (s.late_calls) {
+		if (s.late_calls && !(s.mergefail && mc.fail_fired)) {
 			// iteration has begun (inside mtbl_sorter_write): further calls must be refused
 			if (mtbl_sorter_add(sorter, (const uint8_t *)"zz", 2, (const uint8_t *)"late\n", 5) == mtbl_res_success)
 				res.fail("MODEL", "SORTER-late-add-accepted", "mtbl_sorter_add succeeded after mtbl_sorter_write");
